@@ -325,9 +325,10 @@ func histStory(hist []step, probe int, probeNew bool) []string {
 	return s
 }
 
-// minimise finds a sub-history that still makes the probe differ from the fresh run.
-// First every request is moved to its own connection (if the difference survives, the
-// connection is irrelevant), then letters are deleted greedily from the front.
+// minimise finds a shortest sub-history (subsequence) that still makes the probe differ
+// from the fresh run. First every request is moved to its own connection (if the
+// difference survives, the connection is irrelevant), then the subsequences are tried
+// in order of increasing length; later letters are preferred among equals.
 func (ck *checker) minimise(cfg int, hist []step, probe int, probeNew bool) ([]step, bool, string) {
 	cur := append([]step(nil), hist...)
 	connClass := "keep-alive-only"
@@ -338,18 +339,35 @@ func (ck *checker) minimise(cfg int, hist []step, probe int, probeNew bool) ([]s
 	if v := ck.violates(cfg, allNew, probe, true); len(v.Diff) > 0 {
 		cur, probeNew, connClass = allNew, true, "any"
 	}
-	for i := 0; i < len(cur); {
-		cand := append(append([]step(nil), cur[:i]...), cur[i+1:]...)
-		if len(cand) > 0 {
-			cand[0].New = true
+	n := len(cur)
+	for size := 0; size < n; size++ {
+		for mask := 1<<n - 1; mask >= 0; mask-- {
+			if bitsSet(mask) != size {
+				continue
+			}
+			var cand []step
+			for i := 0; i < n; i++ {
+				if mask&(1<<i) != 0 {
+					cand = append(cand, cur[i])
+				}
+			}
+			if len(cand) > 0 {
+				cand[0].New = true
+			}
+			if v := ck.violates(cfg, cand, probe, probeNew); len(v.Diff) > 0 {
+				return cand, probeNew, connClass
+			}
 		}
-		if v := ck.violates(cfg, cand, probe, probeNew); len(v.Diff) > 0 {
-			cur = cand
-			continue
-		}
-		i++
 	}
 	return cur, probeNew, connClass
+}
+
+func bitsSet(m int) int {
+	c := 0
+	for ; m != 0; m &= m - 1 {
+		c++
+	}
+	return c
 }
 
 // culprit describes what a (minimal) history does to the requests that follow it:
@@ -491,7 +509,7 @@ func main() {
 	budget := 50 * time.Second
 	if !r.Quick() {
 		depth = 3
-		budget = 13 * time.Minute
+		budget = 14 * time.Minute
 	}
 	if v := os.Getenv("C05_DEPTH"); v != "" {
 		fmt.Sscan(v, &depth)
